@@ -628,10 +628,38 @@ def shrink_path(inp, path, oracle, checker):
     return cur
 
 
+def reachable_states(inputs, alphabet, depth, cap):
+    """BFS with state merging over stepwise transitions only: distinct packages reachable within `depth` steps."""
+    seen = {}
+    frontier = []
+    for name in inputs:
+        st = initials()[name]
+        seen[st.key()] = (st, 0)
+        frontier.append(st)
+    transitions = 0
+    for dpt in range(1, depth + 1):
+        nxt = []
+        for st in frontier:
+            for sym in alphabet:
+                r = _run_record([{'op': 'from_state', 'state': st}, SYMS[sym]], [0, 1])
+                transitions += 1
+                if r['res'][0] == 'ok' and not r['missing']:
+                    s2 = r['res'][1]
+                    if s2.key() not in seen:
+                        if len(seen) >= cap:
+                            return seen, transitions, True
+                        seen[s2.key()] = (s2, dpt)
+                        nxt.append(s2)
+        frontier = nxt
+    return seen, transitions, False
+
+
 def explore_c01(task):
     """task: {'input','prefix':[...],'alphabet':[...],'depth':int,'variants':bool}. Explores every extension of
     prefix to total length depth (prefix itself is checked by the task that owns it, except when own=True)."""
     inp, prefix, alphabet, depth = task['input'], task['prefix'], task['alphabet'], task['depth']
+    if 'input_state' in task:
+        initials()[inp] = State.from_json(task['input_state'])
     variants = task.get('variants', False)
     memo = {}
     out = {'n': 0, 'keys': [], 'outcomes': {}, 'viol': [], 'states': set(), 'transitions': 0, 'traces': 0}
